@@ -13,6 +13,7 @@ import (
 	"time"
 
 	"verif/internal/explore"
+	"verif/rt/vrt"
 	"verif/scenarios/reg"
 
 	_ "verif/scenarios/all"
@@ -97,5 +98,6 @@ func main() {
 		cfg.Deadline = time.Now().Add(time.Duration(*deadline * float64(time.Second)))
 	}
 	st := explore.Explore(sc.Body, cfg)
+	vrt.DumpHits(os.Getenv("VERIF_COVDIR"))
 	os.Stdout.Write(st.JSON())
 }
